@@ -2,8 +2,50 @@
 From Coq Require Import List NArith ZArith Bool.
 Import ListNotations.
 From Verif Require Import Base.Val C01.Model_C01 C04.Model_C04 C44.Model_C44 C44.Spec_C44 C44.Proofs_C44.
+From Verif Require C03.Model_C03.
+
+(* the recursive matcher decides the shell-pattern language (a star stands for any string) *)
+Theorem glob_match_is_shell : forall p s, glob_match p s = true <-> shell_match p s.
+Proof. exact glob_match_is_shell_proof. Qed.
+Print Assumptions glob_match_is_shell.
+
+(* the regular expression convert_glob compiles (^..$, star -> dot-star, re.match) accepts exactly
+   that language on newline-free values *)
+Theorem regex_is_glob : forall p s, no_nl s = true -> rx_match (glob_items p) s = glob_match p s.
+Proof. exact regex_is_glob_proof. Qed.
+Print Assumptions regex_is_glob.
+
+(* every accepted text selects exactly the packages it describes (repaired parse_match) *)
+Theorem query_selects : forall t r p,
+  wf_pkg p = true -> parse_match t = Ok r -> eval r p = describes t p.
+Proof. exact query_selects_proof. Qed.
+Print Assumptions query_selects.
+
+(* a category/package text without glob and blocker marks is handed to the atom parser as a
+   whole: it is accepted iff the atom is, and selects what the atom matches *)
+Theorem plain_atom_same_as_atom : forall fix_ t,
+  mem c_star t = false -> mem c_bang t = false -> mem c_slash (q_body (split_query t)) = true ->
+  parse_match_gen fix_ t = atom_result t
+  /\ forall a p, atom_result t = Ok (QAtom a) -> eval (QAtom a) p = atom_match ver_cmp (bridge a) p.
+Proof. exact plain_atom_same_as_atom_proof. Qed.
+Print Assumptions plain_atom_same_as_atom.
 
 (* a text containing a blocker mark is rejected (pinned and repaired behaviour alike) *)
 Theorem blocker_rejected : forall fix_ t, mem c_bang t = true -> parse_match_gen fix_ t = EParse.
 Proof. exact blocker_rejected_proof. Qed.
 Print Assumptions blocker_rejected.
+
+(* the pinned tree: the full statement is false (">=*/alsa-*-1.1.7:0" selects slot 5 too) ... *)
+Theorem query_selects_orig_refuted : ~ C44_orig_full_statement.
+Proof. exact query_selects_orig_refuted_proof. Qed.
+Print Assumptions query_selects_orig_refuted.
+
+(* ... and it behaves like the repaired function on every text outside the known class *)
+Theorem orig_is_fixed_partial : forall t, known_class t = false -> parse_match_orig t = parse_match t.
+Proof. exact orig_is_fixed_partial_proof. Qed.
+Print Assumptions orig_is_fixed_partial.
+
+(* "every non-blocker atom text is accepted" is false: cat/pkg:*[flag] is rejected *)
+Theorem atom_accepted_refuted : ~ C44_atom_full_statement.
+Proof. exact atom_accepted_refuted_proof. Qed.
+Print Assumptions atom_accepted_refuted.
